@@ -188,26 +188,29 @@ def classify(d, mp, woven_name, lines):
     woven_site = site is not None and src is None    # failing obligation sits on woven (ghost) text
     props = []
     region = None
-    if label:
-        props = re.match(r'([C0-9+]+)\.', label).group(1).split('+') if re.match(r'([C0-9+]+)\.', label) else []
-        if label.startswith('*.') and unit is not None:
-            # a clause shared by every arm of a large function: the failing exit's arm decides the owner
-            props = list(unit['props_internal'])
-            if site and unit.get('regions'):
-                best = None
-                for ln, pr, rx in unit['regions']:
-                    if ln <= site['line_start']:
-                        best = (ln, pr, rx)
-                if best and site['line_end'] - site['line_start'] <= 60:
-                    props = list(best[1])
-                    region = best[2]
+    region_props = None
+    if unit is not None and site and unit.get('regions') and site['line_end'] - site['line_start'] <= 60:
+        best = None
+        for ln, pr, rx in unit['regions']:
+            if ln <= site['line_start']:
+                best = (ln, pr, rx)
+        if best:
+            region_props = list(best[1])
+            region = best[2]
+    props = []
+    if label and re.match(r'([C0-9+]+)\.', label):
+        props = re.match(r'([C0-9+]+)\.', label).group(1).split('+')
+    elif label and label.startswith('*.') and unit is not None:
+        # a clause shared by every arm of a large function: the arm of the failing exit decides the owner
+        props = region_props if region_props is not None else list(unit['props_internal'])
     elif unit is not None and unit['mode'] == 'verify':
+        internal = region_props if region_props is not None else (list(unit['props_internal']) or list(unit['props_safety']))
         if kind in SAFETY_KINDS and not woven_site:
             props = list(unit['props_safety'])
         elif kind == 'termination':
-            props = sorted(set(unit['props_safety']) | set(unit['props_internal']))
+            props = sorted(set(unit['props_safety']) | set(internal))
         else:
-            props = list(unit['props_internal']) or list(unit['props_safety'])
+            props = internal
     return dict(region=region, kind=kind, message=msg, label=label, unit=unit['unit'] if unit else None, props=props, src=src,
                 src_text=src_text, woven_line=site['line_start'] if site else None,
                 rendered=d.get('rendered', '')[:3000])
